@@ -244,7 +244,25 @@ func c08HistoryOne(cfg *pxConfig, x, y string, in *pxInit, mode string) (got pxO
 	return got, false
 }
 
+// c08LoopPrograms: a loop entered in the middle whose exit branch depends on a
+// load that misses, so that the next iteration is executed speculatively and
+// flushed; the same static load runs both with and without a forwarded base.
+// They use the "loop" initial state (stop flag clear at 1024, set at 1088).
+func c08LoopPrograms() []string {
+	var out []string
+	for _, load := range []string{"lw t3, 0(t0)", "lb t3, 1(t0)"} {
+		for _, exit := range []string{"bnez t1, exit", "bne t1, zero, exit"} {
+			for _, step := range []string{"addi t0, t0, 32", "addi t0, t0, 64"} {
+				out = append(out, lines("li t0, 256", "li t4, 960", "li a0, 0", "j first", "loop:", step, "first:", load,
+					"add a0, a0, t3", "addi t4, t4, 64", "lw t1, 0(t4)", exit, "j loop", "exit:", "sw a0, 0(zero)", "ret"))
+			}
+		}
+	}
+	return out
+}
+
 func c08Histories(c *RunCtx, item *int) {
+	c08HistoriesOf(c, item, c08LoopPrograms(), pxInitByID("loop"), "loop-entered-in-the-middle")
 	progs := c08Targets(1)
 	extra := []string{
 		lines("addi t0, t0, 1\naddi t1, t0, 1\nadd t2, t0, t1", "end:", post),
@@ -255,7 +273,10 @@ func c08Histories(c *RunCtx, item *int) {
 	if c.Thorough() {
 		progs = append(progs, c08Targets(2)[8:28]...)
 	}
-	in := pxInitByID("pos")
+	c08HistoriesOf(c, item, progs, pxInitByID("pos"), "short")
+}
+
+func c08HistoriesOf(c *RunCtx, item *int, progs []string, in *pxInit, family string) {
 	for ci := range pxConfigs {
 		cfg := &pxConfigs[ci]
 		for yi, y := range progs {
@@ -297,7 +318,7 @@ func c08Histories(c *RunCtx, item *int) {
 				c.Sum.Nontrivial++
 			}
 			if yi == 3 && ci%7 == 0 {
-				c.Sample(map[string]any{"part": "history", "cfg": cfg.Name, "Y": strings.Split(strings.TrimSpace(y), "\n"), "X_programs": len(progs), "modes": 3})
+				c.Sample(map[string]any{"part": "history", "family": family, "cfg": cfg.Name, "Y": strings.Split(strings.TrimSpace(y), "\n"), "X_programs": len(progs), "modes": 3})
 			}
 		}
 	}
@@ -722,7 +743,7 @@ func init() {
 			c08Iterators(c, &item)
 			c08Histories(c, &item)
 			c08Dual(c, &item)
-			c.Sum.Rule = "(i) PX with deviations: 57 target programs (all sequences of length <= 2 over {sw, sb, lw x2, addi x2 (WAW pair), bne} + epilogue) x 33 configurations, plus same-line programs (all sequences of length 3 (quick: 64) / 3..4 (thorough: 320) over three loads and a store to one line) x the MSI configurations with 2..3 (quick) / 2..4 cores: default execution (canonical map orders) vs every execution deviating at <= 1 (quick) / <= 2 (thorough) map-range choice points (all n! orders for maps with <= 3 (quick) / 4 keys, transpositions + rotations + reversal beyond); (ii) comp.Queue.Iterator and ds.StableMapIteration driven by consumers that remove subsets, abandon early and push after abandoning, under a cooperative scheduler with unbounded preemptions, every interleaving; (iii) for every ordered pair (X, Y) of 11 (quick) / 31 programs and every configuration: Y after X, Y on a machine built while X's is alive, Y twice on one parsed Application, all equal to Y alone in a fresh OS process; (iv) two machines interleaved at cycle boundaries, every schedule with <= 1 preemption, separate and shared parsed programs, each machine compared with its solo run; oracle = bit-identical (cycles, registers, memory); non-trivial = (program, configuration) pairs with at least one multi-key map range, harnesses with more than one schedule, Y programs with at least one comparable history, and schedules with a preemption"
+			c.Sum.Rule = "(i) PX with deviations: 57 target programs (all sequences of length <= 2 over {sw, sb, lw x2, addi x2 (WAW pair), bne} + epilogue) x 33 configurations, plus same-line programs (all sequences of length 3 (quick: 64) / 3..4 (thorough: 320) over three loads and a store to one line) x the MSI configurations with 2..3 (quick) / 2..4 cores: default execution (canonical map orders) vs every execution deviating at <= 1 (quick) / <= 2 (thorough) map-range choice points (all n! orders for maps with <= 3 (quick) / 4 keys, transpositions + rotations + reversal beyond); (ii) comp.Queue.Iterator and ds.StableMapIteration driven by consumers that remove subsets, abandon early and push after abandoning, under a cooperative scheduler with unbounded preemptions, every interleaving; (iii) for every ordered pair (X, Y) of 11 (quick) / 31 short programs, and of the 8 programs of the loop-entered-in-the-middle family (exit branch fed by a missing load, next iteration speculated and flushed), and every configuration: Y after X, Y on a machine built while X's is alive, Y twice on one parsed Application, all equal to Y alone in a fresh OS process; (iv) two machines interleaved at cycle boundaries, every schedule with <= 1 preemption, separate and shared parsed programs, each machine compared with its solo run; oracle = bit-identical (cycles, registers, memory); non-trivial = (program, configuration) pairs with at least one multi-key map range, harnesses with more than one schedule, Y programs with at least one comparable history, and schedules with a preemption"
 			c.Assume("the Go memory model is not explored: scheduling points are channel operations, iterator loop heads and cycle boundaries")
 		},
 		Replay: c08Replay,
